@@ -226,6 +226,18 @@ def check(run):
                         md = common.load_metadata_from_file(path)
                         rs.sign_root_metadata_dict_via_gpg(md, rr.choice([f, f.upper()]) if False else f)
                         common.write_metadata_to_file(md, path)
+                if i % 2:
+                    # the normal root update: edit the signed part of the stored file, then every signer signs AGAIN
+                    md = common.load_metadata_from_file(path)
+                    md["signed"]["x-tag"] = f"gnupg-{i}-edited"
+                    common.write_metadata_to_file(md, path)
+                    for f in ks:
+                        if rr.random() < 0.5:
+                            rs.sign_root_metadata_via_gpg(path, f)
+                        else:
+                            md = common.load_metadata_from_file(path)
+                            rs.sign_root_metadata_dict_via_gpg(md, f)
+                            common.write_metadata_to_file(md, path)
                 env = common.load_metadata_from_file(path)
                 run.evaluations += 1
                 if set(env["signatures"]) != set(qs):
